@@ -42,6 +42,7 @@ type faultClass struct {
 
 var catalogue = []faultClass{
 	{"resPQ", "nonce", "flip", 128}, {"resPQ", "nonce", "random", 0}, {"resPQ", "nonce", "other", 0}, {"resPQ", "nonce", "zero", 0},
+	{"resPQ", "fingerprints", "other-clients-key", 0},
 	{"resPQ", "fingerprints", "empty", 0}, {"resPQ", "fingerprints", "one-wrong", 0}, {"resPQ", "fingerprints", "several-wrong", 0}, {"resPQ", "fingerprints", "flip-fp", 64},
 	{"dhParams", "nonce", "flip", 128}, {"dhParams", "nonce", "random", 0}, {"dhParams", "nonce", "other", 0}, {"dhParams", "nonce", "zero", 0},
 	{"dhParams", "server_nonce", "flip", 128}, {"dhParams", "server_nonce", "random", 0}, {"dhParams", "server_nonce", "other", 0}, {"dhParams", "server_nonce", "zero", 0},
@@ -76,6 +77,15 @@ func judge(sc *scen.Scenario, res *scen.Result, runErr error) (string, error) {
 	if res.Connected {
 		return "violation", fmt.Errorf("%s key exchange completed although the server's reply was inconsistent", where)
 	}
+	// abandoned means abandoned: no further step of the exchange follows the inconsistent reply
+	forbidden := map[string]string{"resPQ": "d712e4be", "dhParams": "f5045f1f", "dhInner": "f5045f1f"}
+	names := map[string]string{"d712e4be": "req_DH_params", "f5045f1f": "set_client_DH_params"}
+	for _, ev := range res.Events {
+		if ev.Kind == "plain" && ev.Server == "dc-main" && forbidden[f.Step] != "" && ev.Ctor == forbidden[f.Step] {
+			return "violation", fmt.Errorf("%s the client went on with the key exchange (%s) after the inconsistent reply", where, names[ev.Ctor])
+		}
+	}
+
 	if res.ConnectHung {
 		return "inconclusive", fmt.Errorf("INFRA: %s connect neither failed nor finished: %v", where, res.Notes)
 	}
@@ -85,7 +95,19 @@ func judge(sc *scen.Scenario, res *scen.Result, runErr error) (string, error) {
 	if res.Session != nil && res.Session.Exists {
 		return "violation", fmt.Errorf("%s a session was stored by an aborted key exchange (server went on with: %q)", where, sc.Aftermath)
 	}
+	if sc.PreludeKey != nil {
+		ok := false
+		for _, n := range res.Notes {
+			ok = ok || n == "prelude exchange done"
+		}
+		if !ok {
+			return "inconclusive", fmt.Errorf("INFRA: %s the other client's exchange did not complete: %v", where, res.Notes)
+		}
+	}
 	for _, ev := range res.Events {
+		if ev.Server == "prelude" {
+			continue
+		}
 		if ev.Kind == "enc" || (ev.Kind == "violation" && strings.Contains(ev.Note, "encrypted frame")) {
 			return "violation", fmt.Errorf("%s the client sent an encrypted message after an inconsistent reply (server went on with: %q)", where, sc.Aftermath)
 		}
@@ -127,6 +149,19 @@ func build(src scen.Source, keys []refsrv.RSAKeyJSON, fc faultClass, bit int) (*
 	sc.HS.P, sc.HS.Q = 1000003, 1000033
 	sc.Probe = false
 	sc.Fault = &refsrv.Fault{Step: fc.Step, Field: fc.Field, Kind: fc.Kind, Bit: bit, Rand: src.Bytes("faultrand", 16)}
+	if fc.Kind == "other-clients-key" {
+		// a second client object of the process, configured with another key, has already used it; the server under test
+		// offers the fingerprint of that key only
+		var other refsrv.RSAKeyJSON
+		for _, k := range keys {
+			if k.Key().Fingerprint() != sc.RSA.Key().Fingerprint() {
+				other = k
+				break
+			}
+		}
+		sc.PreludeKey = &other
+		sc.Fault.OtherFP = other.Key().Fingerprint()
+	}
 	return sc, nil
 }
 
